@@ -93,10 +93,13 @@ Section TxSpec.
   (* a transmission starts: the raw transmitter is idle and is asked to generate (it latches the header now) *)
   Definition tp_start (g : tp_state) (o : pout) : bool := q_gen o && negb (t_fly g).
 
-  (* scope and the partner's side of the contract: the link stays up (enable high); never more credits than the
-     partner has buffers; it acknowledges only headers that were transmitted since its last LBAD *)
+  (* scope and the partner's side of the contract: the link goes down (enable low) only while the transmitter is
+     quiescent -- raw transmitter idle, every accepted header transmitted, no LBAD backlog --; never more credits
+     than the partner has buffers; it acknowledges only headers that were transmitted since its last LBAD *)
+  Definition tp_quiet (g : tp_state) : bool :=
+    negb (t_fly g) && (t_sent g =? N.of_nat (length (t_unacked g))) && negb (t_dl g).
   Definition tp_env (g : tp_state) (i : pin) : bool :=
-    p_en i &&
+    (p_en i || tp_quiet g) &&
     (negb (tp_lcrd_ok g i) || (t_cred g + N.of_nat (length (t_unacked g)) <? n)) &&
     (negb (tp_retire g i) || (0 <? t_sent g)).
 
@@ -124,18 +127,26 @@ Section TxSpec.
     let unacked' := (if ret then tl (t_unacked g) else t_unacked g) ++
                     (if take then [stamp sp (p_qhdr i) (t_seq g)] else []) in
     let sent' := if lbad then 0 else t_sent g + b2n counted - b2n ret in
+    let seq' := if is_cmd39 i LGOOD && negb (t_up g) then (p_sub i + 1) mod 2 ^ sw
+                else if take then (t_seq g + 1) mod 2 ^ sw else t_seq g in
+    let fly' := if dn then false else t_fly g || tp_start g o in
+    let stale' := if dn then false else t_stale g || (lbad && (t_fly g || tp_start g o)) in
+    (* a cycle with the link down forgets the session: bring-up, credits, unacknowledged headers, retry mode *)
+    if negb (p_en i) then
+      {| t_up := false; t_cred := 0; t_nextcred := 0; t_seq := seq'; t_unacked := []; t_sent := 0; t_dl := false;
+         t_fly := fly'; t_stale := stale' |}
+    else
     {| t_up := t_up g || is_cmd39 i LGOOD;
        t_cred := t_cred g + b2n (tp_lcrd_ok g i) - b2n take;
        t_nextcred := if tp_lcrd_ok g i then (t_nextcred g + 1) mod n else t_nextcred g;
-       t_seq := if is_cmd39 i LGOOD && negb (t_up g) then (p_sub i + 1) mod 2 ^ sw
-                else if take then (t_seq g + 1) mod 2 ^ sw else t_seq g;
+       t_seq := seq';
        t_unacked := unacked';
        t_sent := sent';
        t_dl := if lbad then true
                else if counted && t_dl g && (t_sent g + 1 =? N.of_nat (length (t_unacked g))) then false
                else t_dl g;
-       t_fly := if dn then false else t_fly g || tp_start g o;
-       t_stale := if dn then false else t_stale g || (lbad && (t_fly g || tp_start g o)) |}.
+       t_fly := fly';
+       t_stale := stale' |}.
 
   Definition tp_mon (g : tp_state) (i : pin) (o : pout) : option (tp_state * bool) :=
     if tp_env g i then Some (tp_next g i o, tp_check g i o) else None.
